@@ -246,6 +246,80 @@ def case_get(ctx, inp):
     ctx.branch("get-" + str(impl[0]))
     ctx.eq("canonical_name", ctx.lean(Sym("cfg-canon"), inp["key"].split(".")[0], it.enc(cfg)),
            dc.canonical_name(inp["key"].split(".")[0], cfg))
+    # documented behaviour of the optional arguments: `default` replaces the exception, `override_with` wins
+    sentinel = object()
+    got = dc.get(inp["key"], default=sentinel, config=cfg)
+    if impl[0] == "ok":
+        if it.enc(got) != impl[1]:
+            ctx.fail("get(key, default=…) differs from get(key) for an existing key", observed=repr(got))
+    elif got is not sentinel:
+        ctx.fail("get(key, default=…) does not return the default for a missing key", observed=repr(got))
+    if dc.get(inp["key"], config=cfg, override_with=17) != 17 or dc.get(inp["key"], default=sentinel, config=cfg,
+                                                                        override_with=None) is not got:
+        ctx.fail("get(override_with=…) is not 'the override if not None, else the normal result'")
+    # pop = get + removal (same canonical walk), on a copy
+    c2 = deep(cfg)
+    try:
+        popped = [Sym("ok"), it.enc(dc.pop(inp["key"], config=c2))]
+    except KeyError:
+        popped = [Sym("KeyError")]
+    except (TypeError, AttributeError):      # popping from a scalar: `'int' object has no attribute 'pop'`
+        popped = [Sym("TypeError")]
+    if popped != impl:
+        ctx.fail("pop(key) does not return / raise what get(key) does", observed=popped, expected=impl)
+    elif impl[0] == "ok" and not _has_both(cfg) and dc.get(inp["key"], default=sentinel, config=c2) is not sentinel:
+        ctx.fail("pop(key) did not remove the key", observed=c2)
+
+
+def case_glue(ctx, inp):
+    """API level: refresh / update_defaults / serialize, expressed through the verified primitives"""
+    import dask.config as dc
+    it = Interner()
+    defaults = [from_json_cfg(d) for d in inp["defaults"]]
+    env = {k: v for k, v in inp["env"]}
+    # --- refresh(config, defaults, paths=[], env): clear; defaults with priority "old"; then the environment on top
+    cfg = from_json_cfg(inp["cfg"])
+    try:
+        envcfg = dc.collect_env(env)
+    except (TypeError, ValueError):
+        return
+    if any(k.replace("_", "-") in dc.deprecations for k in envcfg):
+        return
+    dc.refresh(config=cfg, defaults=deep(defaults), paths=[], env=env)
+    want = {}
+    for d in defaults:
+        dc.update(want, deep(d), priority="old")
+    dc.update(want, deep(envcfg))
+    if ordered(cfg) != ordered(want):
+        ctx.fail("refresh is not 'defaults (first wins) then environment on top'", observed=cfg, expected=want)
+    # the same through the model: old-priority updates, then a new-priority update
+    m = [Sym("ok"), []]
+    for d in defaults:
+        m = ctx.lean(Sym("cfg-update"), Sym("old"), m[1], it.enc(d), None)
+        if m[0] != "ok":
+            break
+    if m[0] == "ok":
+        m = ctx.lean(Sym("cfg-update"), Sym("new"), m[1], it.enc(envcfg), None)
+        ctx.eq("refresh vs model (update old … then update new)", m, [Sym("ok"), it.enc(cfg)])
+    # --- update_defaults(new, config, defaults): new default appended; config follows unless the user changed the value
+    cfg2 = from_json_cfg(inp["cfg"])
+    dl = deep(defaults)
+    new = from_json_cfg(inp["new"])
+    cur = dc.merge(*dl)
+    want2 = deep(cfg2)
+    try:
+        dc.update(want2, deep(new), priority="new-defaults", defaults=cur)
+        dc.update_defaults(deep(new), config=cfg2, defaults=dl)
+    except (TypeError, AttributeError):
+        return
+    if ordered(cfg2) != ordered(want2) or len(dl) != len(defaults) + 1 or ordered(dl[-1]) != ordered(new):
+        ctx.fail("update_defaults is not update(priority='new-defaults', defaults=merge(*defaults)) + append",
+                 observed=[cfg2, len(dl)], expected=want2)
+    # --- serialize / deserialize round trip on JSON-able data
+    for obj in (inp["cfg"], inp["defaults"], {"s": "héllo ☃", "n": [1, 2.5, None, True, {"a-b": "x_y"}]}):
+        if dc.deserialize(dc.serialize(obj)) != obj:
+            ctx.fail("deserialize(serialize(x)) != x", observed=dc.deserialize(dc.serialize(obj)), expected=obj)
+    ctx.branch("glue")
 
 
 def _leaf_paths(d, pre=()):
@@ -435,13 +509,14 @@ def case_env(ctx, inp):
 
 
 CASES = {"set": case_set, "prog": case_prog, "get": case_get, "update": case_update, "merge": case_merge,
-         "env": case_env}
+         "env": case_env, "glue": case_glue}
 
 # ------------------------------------------------------------------------------------------------------------
 # generators
 # ------------------------------------------------------------------------------------------------------------
 UNIVERSE = ["a", "a.b", "a-b", "a_b", "a.b.c", "x", "x.y", "q.r", "a_b.c", "a-b.c"]
-KW_UNIVERSE = ["a", "a__b", "a_b", "x", "x__y", "q__r", "a_b__c", "a__b__c"]
+KW_UNIVERSE = ["a", "a__b", "a_b", "x", "x__y", "q__r", "a_b__c", "a__b__c", "a___b", "a____b", "_a", "a_", "__a", "a__",
+               "a-b", "a.b", "x__y__z__w"]
 DEPRECATED = ["fuse_ave_width", "fuse-ave-width", "shuffle", "array.rechunk-threshold", "ucx.tcp"]
 
 
@@ -551,8 +626,14 @@ def generate(ctx):
     for _ in range(ctx.n(200, 2000)):
         yield "merge", {"dicts": [gen_cfg(rng, segs=SEGMENTS[:8]) for _ in range(rng.randint(0, 4))]}
     raw_values = ["123", "1.5", "true", "False", "None", "null", "hello", "[1, 2]", "{'a': 1}", "'quoted'", "", "a b",
-                  "TRUE", "1e3", "(1, 2)", "foo.bar"]
-    names = ["A", "A__B", "A__C", "A_B", "A-B", "X", "X__Y", "Q__R_S", "a__b", "A__B__C", ""]
+                  "TRUE", "1e3", "(1, 2)", "foo.bar", "NONE", "nUlL", "FALSE", "none ", "0", "-1", "1_000", "0x10", "tRuE"]
+    names = ["A", "A__B", "A__C", "A_B", "A-B", "X", "X__Y", "Q__R_S", "a__b", "A__B__C", "", "A___B", "A__", "__A",
+             "A____B", "Ab__cD", "X__Y__Z__W"]
+    for _ in range(ctx.n(100, 1000)):
+        dfl = [gen_cfg(rng, depth=2, segs=SEGMENTS[:8], leaf=gen_leaf_plain) for _ in range(rng.randint(0, 3))]
+        env = [["DASK_" + rng.choice(names[:10]), rng.choice(raw_values[:12])] for _ in range(rng.randint(0, 3))]
+        yield "glue", {"cfg": gen_cfg(rng, depth=2, segs=SEGMENTS[:8], leaf=gen_leaf_plain), "defaults": dfl, "env": env,
+                       "new": gen_cfg(rng, depth=2, segs=SEGMENTS[:8], leaf=gen_leaf_plain)}
     for _ in range(ctx.n(300, 3000)):
         env = []
         for _ in range(rng.randint(0, 5)):
